@@ -2,7 +2,7 @@
   C01 — Symbolic tree integrity. Property theorems only (model: PgModel/Sym*.lean,
   lemmas: PgProofs/Sym*.lean).
 -/
-import PgProofs.SymNoAlias
+import PgProofs.SymFree
 namespace Pg.Sym
 
 example : (Forest.empty).wf = true := by decide
@@ -589,6 +589,29 @@ theorem C01_removed_detached_cfg {lcs nb : Bool} {scp : Option Bool} {sat : Bool
 theorem C01_removed_detached (f : Forest) (n : Bool) (op : Op) (hf : f.rootsFree = true) (hp : ValueFree op = true) :
     (stepA Cfg.patched f n op).forest.rootsFree = true :=
   C01_removed_detached_cfg (lcs := true) (nb := true) (scp := none) (sat := false) f n op hf hp
+
+/-- a slice assignment `l[a:b:c] = values`. -/
+def IsSliceAssign : Op → Bool
+  | .lSetSlice _ _ _ _ _ => true
+  | _ => false
+
+/-- **No tree outside claims to be inside** — for the whole surface but one entry point: if no
+root reports a parent before a call, none does after it, for every operation (value-free or
+value-offering, successful or rejected) except a slice assignment, on every tree with the belief
+fixes. The exception is real: F225 (`C01_counterexample_F225`), repaired by
+fixes/C01-F225.patch (`C01_fixed_F225`). -/
+theorem C01_roots_parentless {lcs nb : Bool} {scp : Option Bool} {sat : Bool} (f : Forest) (n : Bool) (op : Op)
+    (hf : f.rootsFree = true) (hs : IsSliceAssign op = false) :
+    (stepA (Cfg.fixedWith lcs nb scp sat) f n op).forest.rootsFree = true := by
+  by_cases hv : ValueFree op = true
+  · exact C01_removed_detached_cfg f n op hf hv
+  · have ho : Offering op = true := by
+      cases op <;> simp [ValueFree] at hv <;> simp [IsSliceAssign] at hs <;> rfl
+    unfold stepA
+    split
+    · exact hf
+    · unfold stepN
+      exact normalizeRoots_free _ _ _ (step_free_offering f n op hf ho)
 
 /-! ## Histories -/
 
